@@ -15,7 +15,7 @@ C06-d  the stored digest is copied from offset D with digest_size bytes; the hea
 from ..flow import M1, NEG, Z, P1, POS, POSITIVE
 from ..ir import strip, show, callee_name, const_value, walk, calls_in
 from ..program import rel, all_exprs, unique_defs
-from ..rules.common import (SymRule, run_rule, call_name, calls_of, pstr, last_field, Lin, lin, check_gate)
+from ..rules.common import (SymRule, run_rule, call_name, calls_of, pstr, last_field, Lin, lin, check_gate, atom_cmp)
 
 H = 'zck->header'
 D = 'zck->hdr_digest_loc'
@@ -136,6 +136,146 @@ def tile(extents, window, total):
     return True, 'tiles [0,D) u [L,L+N) exactly', rendered
 
 
+class FillRule(SymRule):
+    """Which byte extents of the header buffer hold file content when they are hashed.  The buffer content on
+    entry is [0, header_size) (what read_lead read: checked separately); zrealloc preserves it, a fresh
+    allocation starts empty; memcpy / read_data into the buffer add extents.  Every hash_update over the buffer
+    must lie inside one filled extent."""
+    name = 'R4.fill'
+
+    def __init__(self, prog, fn):
+        SymRule.__init__(self, prog, fn)
+        self.track_fields = ('header',)
+        self.checked = 0
+        self.unsigned = set()
+        for ex in all_exprs(fn):
+            for n in walk(ex):
+                from ..ir import is_unsigned_type
+                if n.k in ('var', 'mem') and is_unsigned_type(n.t, n.dt):
+                    self.unsigned.add(pstr(n))
+        HS = Lin({'zck->header_size': 1})
+        # entry invariant established by read_lead (checked below): lead_size <= header_size
+        self.start = frozenset([('fill', Lin(), HS), ('bufsym', H), ('le', Lin({L: 1, 'zck->header_size': -1}))])
+
+    def fills(self, ts):
+        return [(x[1], x[2]) for x in ts if isinstance(x, tuple) and len(x) == 3 and x[0] == 'fill']
+
+    def facts(self, ts):
+        return [x[1] for x in ts if isinstance(x, tuple) and len(x) == 2 and x[0] == 'le']
+
+    def nonpos(self, l, ts):
+        # relation from the lead cursor arithmetic: D = L - digest_size (C06-a)
+        l = l.subst(D, Lin({L: 1, DS: -1}))
+        def np(x):
+            return x.c <= 0 and all(v <= 0 and (k in self.unsigned or k in (DS, N, L, 'zck->header_size'))
+                                    for k, v in x.t.items())
+        if np(l):
+            return True
+        fs = [f.subst(D, Lin({L: 1, DS: -1})) for f in self.facts(ts)]
+        for f2 in fs:
+            for k in (1, 2):
+                if np(l - f2.scale(k)):
+                    return True
+        for i in range(len(fs)):
+            for j in range(i + 1, len(fs)):
+                if np(l - fs[i] - fs[j]):
+                    return True
+                c = fs[i] + fs[j]
+                if c.is_const() and c.c > 0:
+                    return True     # contradictory facts: the path is infeasible
+        return False
+
+    def add_fill(self, ts, a, b):
+        fl = self.fills(ts)
+        # merge with an adjacent extent
+        for (s0, e0) in fl:
+            if e0 == a:
+                ts = frozenset(x for x in ts if x != ('fill', s0, e0)) | frozenset([('fill', s0, b)])
+                return ts
+            if self.nonpos(s0 - a, ts) and self.nonpos(a - e0, ts):
+                # starts inside an existing extent: extend it if it ends later
+                ts = frozenset(x for x in ts if x != ('fill', s0, e0)) | frozenset([('fill', s0, b)])
+                return ts
+        return ts | frozenset([('fill', a, b)])
+
+    def on_edge(self, ctx, node, label, refined, ts):
+        if ctx.fn is not self.fn:
+            return ts
+        op, l, r = atom_cmp(node.e, label)
+        lv, rv = self.value(l, ts), self.value(r, ts)
+        if lv is None or rv is None:
+            return ts
+        new = {'<=': lv - rv, '<': lv - rv + Lin(None, 1), '>=': rv - lv, '>': rv - lv + Lin(None, 1)}.get(op)
+        if op == '!=' and rv.is_const() and rv.c == 0 and all(k in self.unsigned for k in lv.t) and lv.c == 0 and \
+                all(v > 0 for v in lv.t.values()):
+            new = Lin(None, 1) - lv      # an unsigned quantity that is not 0 is at least 1
+        if new is not None and not new.is_const():
+            ts = ts | frozenset([('le', new)])
+        return ts
+
+    def buf_offset(self, e, ts):
+        """offset of pointer expression e into the header buffer, or None"""
+        v = self.value(e, ts)
+        if v is None:
+            return None
+        env, fields = self.env_of(ts)
+        base = fields.get(H, Lin({H: 1}))
+        d = v - base
+        if any(k in d.t for k in base.t):
+            return None
+        if not (set(base.t) & set(v.t)):
+            return None
+        return d
+
+    def sym_assign(self, ctx, lhs, rhs, op, ts):
+        if op == '=' and rhs is not None and pstr(lhs, self.subst) == H:
+            r = strip(rhs)
+            if r.k == 'call' and callee_name(r) in ('zrealloc', 'realloc') and pstr(r.a[1], self.subst) == H:
+                # content preserved; the buffer keeps its identity
+                ts = self.set_key(ts, ('f', H), None)
+            elif r.k == 'call' and callee_name(r) in ('zmalloc', 'malloc', 'calloc'):
+                ts = frozenset(x for x in ts if not (isinstance(x, tuple) and len(x) == 3 and x[0] == 'fill'))
+                ts = self.set_key(ts, ('f', H), None)
+            elif r.k == 'var':
+                # the buffer is replaced by a local block: it holds what was copied into that block
+                loc = r.op
+                ts = frozenset(x for x in ts if not (isinstance(x, tuple) and len(x) == 3 and x[0] == 'fill'))
+                for x in list(ts):
+                    if isinstance(x, tuple) and len(x) == 4 and x[0] == 'lfill' and x[1] == loc:
+                        ts = ts | frozenset([('fill', x[2], x[3])])
+                ts = self.set_key(ts, ('f', H), None)
+        return ts
+
+    def sym_call(self, ctx, call, ts):
+        n = callee_name(call)
+        if n in ('memcpy', 'read_data'):
+            dst = call.a[1] if n == 'memcpy' else call.a[2]
+            ln = self.value(call.a[3], ts)
+            off = self.buf_offset(dst, ts)
+            if off is not None and ln is not None:
+                ts = self.add_fill(ts, off, off + ln)
+            else:
+                sd = strip(dst)
+                if n == 'memcpy' and sd.k == 'var' and ln is not None:
+                    # copy into a local block that may become the buffer
+                    ts = ts | frozenset([('lfill', sd.op, Lin(), ln)])
+        if n == 'hash_update':
+            off = self.buf_offset(call.a[3], ts)
+            ln = self.value(call.a[4], ts)
+            if off is not None and ln is not None:
+                self.checked += 1
+                ok = False
+                for (s0, e0) in self.fills(ts):
+                    if self.nonpos(s0 - off, ts) and self.nonpos(off + ln - e0, ts):
+                        ok = True
+                if not ok:
+                    self.violate(ctx, 'unfilled', 'hash_update over header bytes [%r, %r) but the buffer holds file '
+                                 'content only in %s on this path: bytes that were never read from the file are '
+                                 'hashed' % (off, off + ln, ', '.join('[%r, %r)' % f for f in self.fills(ts)) or 'nothing'),
+                                 inst='hashed-bytes-were-read')
+        return ts
+
+
 def cursor_relation(ck, prog, fn_name, config, clause):
     """In fn (read_lead / lead_create): value of `lead_size` minus value of
     `hdr_digest_loc` on every path that assigns both = digest_size."""
@@ -183,6 +323,85 @@ def cursor_relation(ck, prog, fn_name, config, clause):
               'lead_size - hdr_digest_loc = %r on this path (must be exactly %s)' % (diff, DS), node.file, node.line,
               config=config)
     ck.require(good >= 1, '%s: no path assigns lead_size after hdr_digest_loc' % fn_name)
+
+
+def fill_clauses(ck, prog, config, clause='C06-e'):
+    """The header bytes that are hashed were read from the file (shared with C01, C02)."""
+    fn = prog.need_func('read_header_from_file')
+    # ---- e: the hashed bytes were read from the file
+    fr = FillRule(prog, fn)
+    run_rule(prog, fn, fr)
+    ck.require(fr.checked >= 2, 'read_header_from_file: hash_update calls over the header buffer not found')
+    ck.ob(clause, 'R4.fill', fn.name, 'hashed-bytes-were-read', not fr.violations,
+          '%d hash_update state(s) over the header buffer, each inside an extent filled from the file (entry '
+          'content [0, header_size), zrealloc preserves it)' % fr.checked if not fr.violations else
+          fr.violations[0].msg, fn.file, fr.violations[0].node.line if fr.violations else fn.line,
+          path=fr.violations[0].path if fr.violations else None, config=config)
+    # read_lead leaves exactly header_size bytes of file content in the buffer
+    rl0 = prog.need_func('read_lead')
+
+    class LeadFill(SymRule):
+        def __init__(s_, prog, f):
+            SymRule.__init__(s_, prog, f)
+            s_.out = []
+            s_.inv = []
+
+        def sym_call(s_, c2, call, ts):
+            if callee_name(call) == 'read_data':
+                ln = s_.value(call.a[3], ts)
+                cur = [x for x in ts if isinstance(x, tuple) and len(x) == 2 and x[0] == 'readsum']
+                tot = (cur[0][1] if cur else Lin()) + (ln if ln is not None else Lin({'?': 1}))
+                ts = frozenset(x for x in ts if not (isinstance(x, tuple) and len(x) == 2 and x[0] == 'readsum'))
+                ts = ts | frozenset([('readsum', tot)])
+            return ts
+
+        def on_edge(s_, c2, node, label, refined, ts):
+            if c2.fn is not s_.fn:
+                return ts
+            op, l, r = atom_cmp(node.e, label)
+            lv, rv = s_.value(l, ts), s_.value(r, ts)
+            if lv is None or rv is None:
+                return ts
+            new = {'<=': lv - rv, '<': lv - rv + Lin(None, 1), '>=': rv - lv, '>': rv - lv + Lin(None, 1)}.get(op)
+            if new is not None and not new.is_const():
+                ts = ts | frozenset([('le', new)])
+            return ts
+
+        def sym_assign(s_, c2, lhs, rhs, op, ts):
+            if last_field(lhs) == 'header_size' and op == '=':
+                cur = [x for x in ts if isinstance(x, tuple) and len(x) == 2 and x[0] == 'readsum']
+                s_.out.append((s_.value(rhs, ts), cur[0][1] if cur else Lin(), c2.node))
+                ts = s_.set_key(ts, ('f', '@HS'), s_.value(rhs, ts))
+            if last_field(lhs) == 'lead_size' and op == '=':
+                ts = s_.set_key(ts, ('f', '@L'), s_.value(rhs, ts))
+            return ts
+
+        def on_return(s_, c2, node, mask, ts):
+            if c2.fn is s_.fn and mask & (P1 | POS):
+                env, fields = s_.env_of(ts)
+                hs, l_ = fields.get('@HS'), fields.get('@L')
+                if hs is not None and l_ is not None:
+                    need = l_ - hs
+                    ok = need.is_const() and need.c <= 0
+                    for f in [x[1] for x in ts if isinstance(x, tuple) and len(x) == 2 and x[0] == 'le']:
+                        d = need - f
+                        if d.is_const() and d.c <= 0:
+                            ok = True
+                    s_.inv.append((ok, need, node))
+            return ts
+    lf = LeadFill(prog, rl0)
+    run_rule(prog, rl0, lf)
+    ck.require(len(lf.out) >= 1, 'read_lead: header_size is not set')
+    bad = [(v, t, nd) for v, t, nd in lf.out if v != t]
+    ck.ob(clause, 'R4.fill', rl0.name, 'header_size=bytes-read', not bad,
+          'read_lead sets header_size to the number of bytes it read into the buffer (%d path states)' % len(lf.out)
+          if not bad else 'read_lead sets header_size = %r after reading %r bytes' % (bad[0][0], bad[0][1]),
+          rl0.file, bad[0][2].line if bad else rl0.line, config=config)
+    badinv = [x for x in lf.inv if not x[0]]
+    ck.ob(clause, 'R4.fill', rl0.name, 'lead_size<=header_size', bool(lf.inv) and not badinv,
+          'every success exit of read_lead has lead_size <= header_size (%d exit states)' % len(lf.inv)
+          if lf.inv and not badinv else 'read_lead can return with lead_size - header_size = %r > 0' % (
+              badinv[0][1] if badinv else '?'), rl0.file, badinv[0][2].line if badinv else rl0.line, config=config)
 
 
 def run(ctx):
@@ -290,6 +509,7 @@ def run(ctx):
         ck.ob('C06-d', 'R4.extent', fn.name, 'read-end', ends == set([total]),
               'header bytes read from the file end at %s (header ends at %r)' % (
                   ', '.join(repr(e) for e in ends) or '?', total), rd[0].file, rd[0].line, config=config)
+        fill_clauses(ck, prog, config)
         # stored digest copied from offset D, digest_size bytes (read_lead)
         rl = prog.need_func('read_lead')
         r3 = ExtentRule(prog, rl, (), {'memcpy': (0, 1, 2)})
